@@ -116,3 +116,23 @@ CONTRACTS.append(
         pure_results=PURE,
     )
 )
+
+
+# --------------------------------------------------------------------------------------------------------------
+# derive_docstring_format: the style router in front of every docstring parse.  A docstring that carries a ReST field
+# (":param", ":type", ":return" ... -- the property's own token list, not the code's table) is read as ReST, whatever words its
+# prose contains: the Google / NumPy scanner would take a mid-sentence "Args:" or "Returns:" of the header for a section start
+# and cut the header there.
+REST_FIELDS = (":param", ":cvar", ":ivar", ":var", ":type", ":raises", ":return", ":rtype")
+CONTRACTS.append(
+    Contract(
+        M + ":derive_docstring_format",
+        params={"docstring": "str"},
+        ensures=[
+            "implies(%s, result == Style.rest)" % " or ".join("contains(docstring, %r)" % t for t in REST_FIELDS),
+            "implies(not (%s) and (%s), result == Style.google)" % (" or ".join("contains(docstring, %r)" % t for t in REST_FIELDS),
+                                                                     " or ".join("contains(docstring, %r)" % t for t in ("Args:", "Kwargs:", "Raises:", "Returns:"))),
+            "implies(not (%s), result == Style.numpydoc)" % " or ".join("contains(docstring, %r)" % t for t in REST_FIELDS + ("Args:", "Kwargs:", "Raises:", "Returns:")),
+        ],
+    )
+)
